@@ -527,7 +527,7 @@ pub fn parse_inline_conditional(
     }
 
     let inner = &trimmed[1..trimmed.len() - 1];
-    let (condition, branch) = match inner.split_once(':') {
+    let (condition, branch) = match split_at_condition_colon(inner) {
         Some(parts) => parts,
         None => return Ok(None),
     };
@@ -538,6 +538,36 @@ pub fn parse_inline_conditional(
         // the space that authors write after ':' (e.g. `{cond: text}` → `" text"`).
         branch,
     )))
+}
+
+/// Splits `text` at the `:` that ends a condition: the first one that is not inside a
+/// string literal (`{s == "a:b": yes|no}`), parentheses or a nested `{…}`.
+pub fn split_at_condition_colon(text: &str) -> Option<(&str, &str)> {
+    let mut depth = 0usize;
+    let mut in_string = false;
+    // `{…}` inside a string literal holds an expression, which may hold a string again
+    let mut string_brace_depth = 0usize;
+
+    for (index, ch) in text.char_indices() {
+        if in_string {
+            match ch {
+                '{' => string_brace_depth += 1,
+                '}' => string_brace_depth = string_brace_depth.saturating_sub(1),
+                '"' if string_brace_depth == 0 => in_string = false,
+                _ => {}
+            }
+            continue;
+        }
+        match ch {
+            '"' => in_string = true,
+            '{' | '(' => depth += 1,
+            '}' | ')' => depth = depth.saturating_sub(1),
+            ':' if depth == 0 => return Some((&text[..index], &text[index + 1..])),
+            _ => {}
+        }
+    }
+
+    None
 }
 
 pub fn parse_condition(condition: &str) -> Result<crate::ast::Condition, CompilerError> {
